@@ -32,7 +32,10 @@ def dbname(platform):
 
 
 def gen(rng, n_tus=None, n_platforms=None, outside=False, missing=0.0, toggles=True, subdir=True,
-        forced=True, computed=True, big=False, findable=False):
+        forced=True, computed=True, big=False, findable=False, deep=0):
+    """deep=N: the first translation unit also includes a chain of N headers nested N levels deep (each level holds
+    code and a macro test; the innermost one defines a macro the translation unit tests afterwards and includes
+    ordinary -- possibly missing -- headers).  gcc's nesting limit is 200."""
     dirs = ["src"] + (["src/sub"] if subdir and rng.random() < 0.7 else []) + INC_DIRS
     if outside:
         dirs.append("@out/ext")
@@ -136,6 +139,15 @@ def gen(rng, n_tus=None, n_platforms=None, outside=False, missing=0.0, toggles=T
                                                        ["elif", "!defined(REP2)", [["define", "REP2", None], ["code"], ["include", "q", "rep.h"]]],
                                                        ["else", None, [["code"]]]]], ["code"]]
             body += [["include", rng.choice("qa"), "rep.h"], ["chain", [["ifdef", "REP2", [["code"]]], ["else", None, [["code"]]]]]]
+        if deep and t == 0:
+            for k in range(deep):
+                hb = [["code"]] + detectors(1)
+                if k + 1 < deep:
+                    hb += [["include", "q", f"dp{k + 1}.h"], ["code"]]
+                else:
+                    hb += [["define", "DEEPEST", None], inc_item(names, d), ["code"]]
+                files[f"{d}/dp{k}.h"] = hb
+            body += [["include", "q", "dp0.h"], ["chain", [["ifdef", "DEEPEST", [["code"]]], ["else", None, [["code"]]]]]]
         body.extend(detectors(rng.randint(1, 3)))
         if forced:
             body.append(["chain", [["ifdef", "FROM_PRE", [["code"]]], ["else", None, [["code"]]]]])
@@ -237,10 +249,14 @@ def gcc_expect(case, base, rendered, extra=()):
     per_tu = []
     expected = {}
     ok = True
+    memo = {}      # identical commands (long histories repeat a few commands many times) are preprocessed once
     for tu in case["tus"]:
         path, defines, search, incs = tu_args(tu, root, out)
-        g = gcc.preprocess(path, defines=defines, search=search, includes=incs, cwd=os.path.dirname(path), H=True,
-                           extra=extra)
+        key = (path, tuple(defines), tuple(map(tuple, search)), tuple(incs))
+        if key not in memo:
+            memo[key] = gcc.preprocess(path, defines=defines, search=search, includes=incs, cwd=os.path.dirname(path),
+                                       H=True, extra=extra)
+        g = memo[key]
         per_tu.append(g)
         if not g["ok"]:
             ok = False
